@@ -88,7 +88,14 @@ RULE = (
     "holding undefined, size/first/last, nested and computed paths, out-of-range indexes) "
     "over a fixed fully-known data set x deletion subsets; (c) a seed-independent sweep of "
     "every statement form x each of 20 never-resolvable expressions (x 9 arrays where an "
-    "array meets the missing value) and of 57 'not used' forms x 13 missing expressions; "
+    "array meets the missing value) and of 57 'not used' forms x 13 missing expressions; (d) 26 short-circuit forms "
+    "(and/or, nested, with not, in if/elsif/unless/ternary/liquid/partials/lambdas) whose "
+    "left operand decides x 13-17 right operands that compare / test membership / size of "
+    "a variable x {nothing, the variable, its properties} deleted, always sync and async; "
+    "(e) 31 forms of the filters that look up optional context names themselves (currency, "
+    "money*, decimal, datetime, unit, t/gettext family, translate tag) with every referenced "
+    "variable present x {no optional name, all 11, each one} supplied, sync and async, and "
+    "random optional-name subsets added to 40% of the seeded programs; "
     "sync and async; each case = one policy triple (Undefined, StrictUndefined, "
     "FalsyStrictUndefined). distinct = hash(source, data, mode); non-trivial = at least "
     "one variable deleted or a strict policy raised UndefinedError."
@@ -823,7 +830,23 @@ class Runner:
                 if bad("".join(keep), templates, data, complete, nouse):
                     src = "".join(keep)
             if not bad(src, templates, data):
-                return src, templates, data
+                # the violation rests on a premise about the text (complete by
+                # construction / not used): only drop what the text cannot refer to --
+                # partials whose removal leaves the verdict intact (a referenced one
+                # would fail with TemplateNotFound instead) and data roots whose name
+                # occurs nowhere in the remaining sources
+                tpls = dict(templates)
+                for name in list(tpls):
+                    t2 = {k: v for k, v in tpls.items() if k != name}
+                    if name not in src and bad(src, t2, data, complete, nouse):
+                        tpls = t2
+                texts = src + "\x00" + "\x00".join(tpls.values())
+                dat = {k: v for k, v in data.items()
+                       if re.search(r"(?<![\w-])" + re.escape(str(k)) + r"(?![\w-])", texts)
+                       or k in G.OPTIONAL}
+                if dat != data and bad(src, tpls, dat, complete, nouse):
+                    return src, tpls, dat
+                return src, tpls, data
             if len(src) <= 1500:
                 src = ddmin_str(src, lambda s: bad(s, templates, data), max_calls=260)
             # partials: drop, then shrink those that remain (fresh dict each time: env cache)
@@ -1128,7 +1151,10 @@ def floors(tier: str) -> dict[str, int]:
         "set:touch_kinds": 8,
         "set:nouse_kinds": 50,
         "set:statement_kinds": 150,
-        "sweep_programs": 6000,
+        "sweep_programs": 9000,
+        "short_circuit_async": 1000,
+        "short_circuit_sync": 1000,
+        "optional_context_name_triples": 600,
         "nouse_programs": 800 if tier == "quick" else 8000,
         "nouse_falsy_ok_after_touch": 400 if tier == "quick" else 3000,
         "nouse_strict_ok_with_undefined_created": 300 if tier == "quick" else 2500,
@@ -1203,8 +1229,9 @@ def _gen(r: Runner, spec: dict[str, Any], ctx: Ctx) -> None:
     for pi in range(nprog):
         ctx.check_deadline()
         nouse: tuple[str, ...] = ()
-        if rng.random() < 0.22:
-            stmts, pol = G.nouse_program(rng)
+        dels: list[tuple] = []
+        if rng.random() < 0.25:
+            stmts, pol, dels = G.nouse_program(rng)
             nouse, complete = tuple(pol), False
         else:
             total = rng.random() < 0.45
@@ -1217,17 +1244,30 @@ def _gen(r: Runner, spec: dict[str, Any], ctx: Ctx) -> None:
         for kind, _ in stmts:
             ctx.seen("nouse_kinds" if "nouse" in kind else "statement_kinds", kind)
         data = G.base_data()
-        mode = "async" if pi % 4 == 3 else "sync"
+        # names some filters look up themselves: present or not, the program references
+        # the same variables (completeness is unaffected)
+        if rng.random() < 0.4:
+            for name in rng.sample(sorted(G.OPTIONAL), rng.randint(1, len(G.OPTIONAL))):
+                data[name] = G.OPTIONAL[name]
+            ctx.count("programs_with_optional_context_names")
+        if dels:
+            data = delete(data, dels)
+        mode = "async" if pi % 3 == 2 else "sync"
         t = r.parse(src, tpls, "shopify")
         if t is None:
             ctx.count("gen_unparsable")
             ctx.note(f"generator produced unparsable source: {src!r}")
             continue
         first = r.render(t["default"], copy.deepcopy(data), mode)
+        if nouse:
+            # the premise "only the unused paths are missing" does not survive further
+            # deletions; both modes instead
+            for m in ("sync", "async"):
+                r.case(src, tpls, data, m, "shopify", complete, len(dels), parts, nouse=nouse)
+            ctx.count("gen_programs")
+            continue
         r.case(src, tpls, data, mode, "shopify", complete, 0, parts, nouse=nouse)
         ctx.count("gen_programs")
-        if nouse:
-            continue  # the premise "only {M} is missing" does not survive deletions
         cands = candidates(data, first.log.lookups, _analysed(t["default"]), 9)
         # only positions under roots the program mentions
         mentioned = {p[0] for p in first.log.lookups} | {s[0] for s in _analysed(t["default"]) if s}
@@ -1249,18 +1289,28 @@ def _sweep(r: Runner, spec: dict[str, Any], ctx: Ctx) -> None:
     tier = spec["tier"]
     tpls = G.PARTIALS
     last = None
-    for pi, (kind, src, nouse) in enumerate(G.sweep()):
+    for pi, e in enumerate(G.sweep()):
         if pi % spec["n"] != spec["i"]:
             continue
         ctx.check_deadline()
-        modes = ("sync", "async") if tier != "quick" or (pi // spec["n"]) % 4 == 3 else ("sync",)
-        for mode in modes:
-            if r.parse(src, tpls, "shopify") is None:
-                ctx.count("gen_unparsable")
-                ctx.note(f"sweep produced unparsable source: {src!r}")
-                break
-            r.case(src, tpls, G.base_data(), mode, "shopify", False, 0, [src], nouse=nouse)
+        kind, src, nouse = e["kind"], e["src"], tuple(e["nouse"])
+        both = e["both"] or tier != "quick" or (pi // spec["n"]) % 4 == 3
+        data = G.base_data()
+        data.update(copy.deepcopy(e["extra"]))
+        if e["delete"]:
+            data = delete(data, e["delete"])
+        if r.parse(src, tpls, "shopify") is None:
+            ctx.count("gen_unparsable")
+            ctx.note(f"sweep produced unparsable source: {src!r}")
+            continue
+        for mode in (("sync", "async") if both else ("sync",)):
+            r.case(src, tpls, data, mode, "shopify", e["complete"], len(e["delete"]), [src],
+                   nouse=nouse)
             ctx.count("sweep_programs")
+            if kind.startswith("nouse:sc-"):
+                ctx.count("short_circuit_" + mode)
+            if e["complete"]:
+                ctx.count("optional_context_name_triples")
         ctx.seen("nouse_kinds" if "nouse" in kind else "statement_kinds", kind)
         last = {"kind": "sweep", "form": kind, "source": src}
     if last:
